@@ -180,22 +180,25 @@ _BOUNDED = ("strload", "dateparse", "isoformat")
 
 
 def shrink_lru(name: str, capacity: int) -> bool:
-    """Re-create one of the three bounded value memos with a small capacity.
+    """Re-create a bounded value memo of ``serdes`` with a small capacity.
 
-    All call sites go through the module attribute, so natural eviction simply
-    happens sooner.  Returns False if the attribute is not a memo any more
-    (a legitimate repair may remove one)."""
+    ``name`` selects the bounded LRU wrapper bound to a module attribute whose name
+    contains it (``strload`` also finds a private ``_strload``).  All call sites go
+    through the module attribute, so natural eviction simply happens sooner.  Returns
+    False if no such memo exists (a legitimate repair may remove one)."""
     from typelib import serdes
 
     if name not in _BOUNDED:
         raise ValueError(name)
-    cur = getattr(serdes, name, None)
-    inner = getattr(cur, "__wrapped__", None)
-    if inner is None or not isinstance(cur, _LRU_TYPE):
-        return False
-    new = functools.lru_cache(maxsize=capacity)(inner)
-    setattr(serdes, name, new)
-    return True
+    for attr in sorted(vars(serdes)):
+        cur = vars(serdes)[attr]
+        if name in attr and isinstance(cur, _LRU_TYPE) and cur.cache_parameters().get("maxsize") is not None:
+            inner = getattr(cur, "__wrapped__", None)
+            if inner is None:
+                continue
+            setattr(serdes, attr, functools.lru_cache(maxsize=capacity)(inner))
+            return True
+    return False
 
 
 def library_banner() -> dict:
